@@ -25,24 +25,56 @@ NEVER_INLINE = {
 }
 
 
+def _string_literals(path):
+    """the contents of the string literals of a Python file, docstrings excluded (prose, not anchors)."""
+    import io
+    import tokenize
+    import ast
+    out = []
+    prev_sig = None
+    with open(path, "rb") as fh:
+        for tok in tokenize.tokenize(fh.readline):
+            if tok.type == tokenize.STRING:
+                # a string that starts a logical line is a docstring / bare expression
+                if prev_sig in (None, tokenize.NEWLINE, tokenize.INDENT, tokenize.DEDENT):
+                    prev_sig = tok.type
+                    continue
+                try:
+                    v = ast.literal_eval(tok.string)
+                except Exception:
+                    v = tok.string
+                if isinstance(v, str):
+                    out.append(v)
+            if tok.type not in (tokenize.COMMENT, tokenize.NL, tokenize.ENCODING):
+                prev_sig = tok.type
+    return out
+
+
 def rule_names():
+    """Function names a rule looks up: they are never inlined away. Taken from the string literals of the rule modules
+    (Python identifiers such as a `.discard(` method call are not anchors) and from the reviewed tables."""
     global _RULE_NAMES
     if _RULE_NAMES is None:
         names = set()
         here = os.path.join(os.path.dirname(os.path.abspath(__file__)), "..", "rules")
-        for p in glob.glob(os.path.join(here, "*.py")) + glob.glob(os.path.join(here, "*.tsv")):
+        for p in glob.glob(os.path.join(here, "*.py")):
+            for lit in _string_literals(p):
+                for m in re.finditer(r"::([A-Za-z_][A-Za-z0-9_]*)", lit):
+                    names.add(m.group(1))
+                for m in re.finditer(r"\b([a-z_][a-z0-9_]{3,})\(", lit):       # `get_module(` inside a matched text
+                    names.add(m.group(1))
+                if re.fullmatch(r"[a-z_][a-z0-9_]{3,}", lit):
+                    names.add(lit)
+                elif not re.search(r"\s", lit):
+                    for m in re.finditer(r"(?<![A-Za-z0-9_])[a-z_][a-z0-9_]{3,}(?![A-Za-z0-9_])", lit):
+                        names.add(m.group(0))
+                else:
+                    # prose: only words that look like Rust function names (snake_case with an underscore)
+                    for m in re.finditer(r"\b([a-z][a-z0-9]*(?:_[a-z0-9]+)+)\b", lit):
+                        names.add(m.group(1))
+        for p in glob.glob(os.path.join(here, "*.tsv")):
             txt = open(p).read()
-            if p.endswith(".py"):
-                # names in comments and docstrings are prose, not anchors
-                txt = re.sub(r'''("""|\'\'\')[\s\S]*?\1''', "", txt)
-                txt = "\n".join(l.split("  # ")[0] if not l.lstrip().startswith("#") else "" for l in txt.splitlines())
             for m in re.finditer(r"::([A-Za-z_][A-Za-z0-9_]*)", txt):
-                names.add(m.group(1))
-            for m in re.finditer(r"[\"']([a-z_][a-z0-9_]{3,})[\"']", txt):
-                names.add(m.group(1))
-            for m in re.finditer(r"\b([a-z_][a-z0-9_]{3,})\(", txt):       # `get_module(` inside a matched text
-                names.add(m.group(1))
-            for m in re.finditer(r"[\"'(, ]([a-z_][a-z0-9_]{3,})[\"']", txt):  # "… endswith(("get_mut", "get"))
                 names.add(m.group(1))
             for m in re.finditer(r"^(?:[a-z_:]+::)?([A-Za-z_][A-Za-z0-9_]*)\t", txt, re.M):
                 names.add(m.group(1))
@@ -240,6 +272,8 @@ def _thread_constant_returns(blocks, bo, n, ret_local, target):
         if st[2] == "=" and not st[3][1] and st[3][0] == sw_local and st[4][0] == "use" and st[4][1][0] in ("c", "m") and st[4][1][1] == [dest, []]:
             kind = "bool"
             continue
+        if st[2] == "=" and st[3][0] not in (dest, sw_local) and not any(e == "*" or (isinstance(e, list) and e and e[0] == "*") for e in st[3][1]):
+            continue  # drop flags and the like: copied with the continuation, cannot change the switched value
         return
     if sw_local == dest:
         kind = "bool"
@@ -271,31 +305,107 @@ def _thread_constant_returns(blocks, bo, n, ret_local, target):
                 c = _const_of(st[4])
         if c is None:
             continue
-        # follow the exit chain (gotos and scope-exit drops, none of which touches the return place) to a return block
-        j, hops, chain = b["t"][3], 0, []
-        while j not in ret_blocks and hops < 16 and bo <= j < bo + n and blocks[j]["t"][2] in ("goto", "drop") \
-                and not any(st[2] == "=" and st[3][0] == ret_local for st in blocks[j]["s"]):
-            chain.append(j)
-            j = blocks[j]["t"][3] if blocks[j]["t"][2] == "goto" else blocks[j]["t"][4]
-            hops += 1
-        if j not in ret_blocks:
+        # the exit region: the callee blocks between this assignment and the return block(s) -- gotos, scope-exit drops and
+        # drop-elaboration switches (open drops / drop flags), none of which touches the return place
+        def succs(blk):
+            t = blk["t"]
+            if t[2] == "goto":
+                return [t[3]]
+            if t[2] == "drop":
+                return [t[4]]
+            if t[2] == "switch":
+                return [tg_ for _, tg_ in t[4]] + ([t[5]] if t[5] is not None else [])
+            return None
+        region, order, ok, work = set(), [], True, [b["t"][3]]
+        while work and ok:
+            j = work.pop()
+            if j in region or j in ret_blocks:
+                continue
+            if not (bo <= j < bo + n) or len(region) >= 12 or any(st[2] == "=" and st[3][0] == ret_local for st in blocks[j]["s"]):
+                ok = False
+                break
+            sj = succs(blocks[j])
+            if sj is None:
+                ok = False
+                break
+            region.add(j)
+            order.append(j)
+            work.extend(sj)
+        if not ok:
+            continue
+        # acyclic?
+        state = {}
+
+        def cyc(j):
+            if j not in region:
+                return False
+            if state.get(j) == 1:
+                return True
+            if state.get(j) == 2:
+                return False
+            state[j] = 1
+            r = any(cyc(x) for x in succs(blocks[j]))
+            state[j] = 2
+            return r
+        if any(cyc(j) for j in order):
             continue
         tg = pick(c)
         if tg is None:
             continue
-        # private copy of the chain (tail duplication), ending in a jump to the arm this constant selects
-        first_new = len(blocks)
-        for k, cj in enumerate(chain):
-            src = blocks[cj]
-            nxt = first_new + k + 1
+        # private copy of the region (tail duplication); every return block becomes a jump to the arm this constant selects
+        remap = {}
+        nxt = len(blocks)
+        for j in order:
+            remap[j] = nxt
+            nxt += 1
+        finals = {}
+
+        def final_for(j):
+            if j not in finals:
+                finals[j] = None  # placeholder, filled below
+            return ("final", j)
+        new_blocks = []
+        need_final = []
+
+        def mp(j):
+            if j in remap:
+                return remap[j]
+            if j in ret_blocks:
+                if j not in need_final:
+                    need_final.append(j)
+                return ("final", j)
+            return j
+        for j in order:
+            src = blocks[j]
             t2 = list(src["t"])
             if t2[2] == "goto":
-                t2[3] = nxt
+                t2[3] = mp(t2[3])
+            elif t2[2] == "drop":
+                t2[4] = mp(t2[4])
             else:
-                t2[4] = nxt
-            blocks.append({"c": src["c"], "s": list(src["s"]), "t": t2})
-        blocks.append({"c": b["c"], "s": list(blocks[j]["s"]) + list(T["s"]), "t": [b["t"][0], b["t"][1], "goto", tg]})
-        blocks[i] = {"c": b["c"], "s": list(b["s"]), "t": [b["t"][0], b["t"][1], "goto", first_new]}
+                t2[4] = [[v_, mp(tg_)] for v_, tg_ in t2[4]]
+                t2[5] = mp(t2[5]) if t2[5] is not None else None
+            new_blocks.append({"c": src["c"], "s": list(src["s"]), "t": t2})
+        first_tgt = mp(b["t"][3])
+        fidx = {}
+        for k, j in enumerate(need_final):
+            fidx[j] = len(blocks) + len(new_blocks) + k
+
+        def fix(x):
+            return fidx[x[1]] if isinstance(x, tuple) else x
+        for nb in new_blocks:
+            t2 = nb["t"]
+            if t2[2] == "goto":
+                t2[3] = fix(t2[3])
+            elif t2[2] == "drop":
+                t2[4] = fix(t2[4])
+            else:
+                t2[4] = [[v_, fix(tg_)] for v_, tg_ in t2[4]]
+                t2[5] = fix(t2[5]) if t2[5] is not None else None
+        blocks.extend(new_blocks)
+        for j in need_final:
+            blocks.append({"c": b["c"], "s": list(blocks[j]["s"]) + list(T["s"]), "t": [b["t"][0], b["t"][1], "goto", tg]})
+        blocks[i] = {"c": b["c"], "s": list(b["s"]), "t": [b["t"][0], b["t"][1], "goto", fix(first_tgt)]}
 
 
 def inlinable(prog, caller_name, callee_name, stack):
